@@ -6,7 +6,8 @@ from debian_inspector import copyright as cr
 
 ID = 'C12'
 LEVEL = 'proof'
-THEOREMS = [('DebInspector.Thm.C12', ['Props.C12.absorb_iff', 'Props.C12.cont_not_decl', 'Props.C12.cont_not_blank', 'Props.C12.blank_before_cont_absorbed'])]
+THEOREMS = [('DebInspector.Thm.C12', ['Props.C12.groups_sound', 'Props.C12.sim', 'Props.C12.rstripLines_blank', 'Props.C12.itemsOK_of_wf',
+                                      'Props.C12.absorb_iff', 'Props.C12.cont_not_decl', 'Props.C12.cont_not_blank', 'Props.C12.blank_before_cont_absorbed'])]
 TRUSTED = [
     'Lean 4.33.0 kernel',
     'reading of the property as Props.C12.holdsOn (groups equal up to the text of the replaced markers; same classes, keys, ranges and words)',
@@ -17,12 +18,13 @@ ASSUMPTIONS = ['documents are lists of declaration / continuation / empty lines;
 RULE = ('DEP-5-like and control-like documents with " ." markers in license, comment, description and extra fields; every subset-sample of markers followed by a continuation line, '
         'replaced by empty / space / spaces / tab lines; plus the negative family (two adjacent markers both blanked) where model and implementation must agree that the paragraph splits. '
         'non-trivial = at least one marker replaced')
-TECHNIQUE = ('Lean 4 theorems about the look-ahead rule (a blank line is absorbed exactly when the next line is neither blank nor a declaration; a continuation line is neither) '
-             '+ executable comparison specification on every implementation observation + correspondence in both directions')
-LEVEL_TEXT = ('Proved in Lean 4: in the model of the generator loop a blank line met while a field is open is appended to that field exactly when the next line exists and is neither '
-              'a declaration nor blank (absorb_iff), and every continuation line is neither (cont_not_decl, cont_not_blank) - so a blanked marker followed by a continuation line is always '
-              'absorbed. That groups, classes, keys, ranges and words are then unchanged is decided by the executable specification on every implementation observation and by '
-              'correspondence (including the negative family where the paragraph must split); it is not yet a theorem.')
+TECHNIQUE = ('Lean 4 theorem Props.C12.groups_sound: for every well-formed document and every admissible set of blanked markers the line-tracking parser reports the same groups, fields and line numbers (simulation of the two runs of the loop) '
+             '+ executable specification (groups and copyright paragraphs: classes, keys, words) on every observation + correspondence')
+LEVEL_TEXT = ('Props.C12.groups_sound: for every well-formed document (every non-empty line a declaration or a continuation line, continuation lines after non-empty lines; any number of lines, paragraphs and fields) and every set of " ." markers '
+              'each followed by a continuation line and replaced by an empty or white-space-only line (any Unicode white space, no two adjacent), the model of get_paragraphs_as_field_groups on the blanked text returns exactly what it returns on the original '
+              'with the text of the replaced lines emptied: same paragraphs, fields, line numbers and other lines. Proved in Lean 4 by a simulation of the two runs of the loop (sim: the states stay related, a blanked line is absorbed exactly where the marker was a continuation line) '
+              'and rstripLines_blank (trailing-blank trimming commutes with the blanking because every blanked line has a later non-blank line in its field). '
+              'The copyright-object half (same paragraph classes, keys and words) is decided by the executable specification on every implementation observation and by correspondence, not by theorem.')
 LEVEL_NOTE = ('Trusted: Lean kernel; axioms propext, Classical.choice, Quot.sound only for the registered theorems; the comparison clauses rest on specification evaluation + correspondence.')
 
 REPL = ['', ' ', '   ', '\t', ' \t ', '\x0c', '\x0b', '\xa0', '\u3000', ' \x0c ', '\u2028', '\x85', '\x1c', '\u2003\u200a']
